@@ -8,11 +8,21 @@ field as strings.  Oracle: an independent join on (raw file, scan, modified sequ
 The only value conversion outside the model is `repr(float(field))` for the score / PEP fields of
 the result files (the implementation holds them as floats and csv writes their repr): the generator
 records which columns those are and `model_request` hands the model the written form.
+
+File names and the order given (addendum 3): every case names its evidence and result files itself
+(`ev_paths`, `res_paths`: random directories / base names, the same base name in different directories,
+non-alphabetical orders common) and lists them in its own order (`ev_args`, `res_args`: indices into
+`evidence` / `results`; an index may occur twice = the same path given twice, which the code merges
+twice).  `entry` selects the entry point: `update_evidence_files` (api), `main(argv)` (main),
+`python -m picked_group_fdr.pipeline.update_evidence_from_pout` (module), or
+`pipeline.run_update_evidence` (pipeline: one merge per evidence file, each with all result files).
+The model and the oracle receive the files in the order GIVEN, never in path order.
 """
 import csv
 import os
 import re
 import shutil
+import subprocess
 import tempfile
 import traceback
 
@@ -77,7 +87,11 @@ class P(Prop):
         "files (.txt tab / .csv comma, 0-9 rows) over 6 raw-file names with underscores, 8 modified sequences, scans 1-4 "
         "with leading zeros / plus sign, duplicate keys within and across result files, MBR rows, rare malformed inputs "
         "(12 % of the cases exercise parse_andromeda_psmid_and_peptide alone on identifiers built from 14 tokens) "
-        "(bad PSM id, missing column, short row, empty file); non-trivial = non-empty results and at least one rewritten "
+        "(bad PSM id, missing column, short row, empty file); files named by the case (9 directories x 6 base names, same base "
+        "name in different directories 45 %, order given not the sorted path order in >= 80 % of the multi-file cases), "
+        "8 % / 6 % list an evidence / result file twice; entry point per case: update_evidence_files 25 %, "
+        "pipeline.run_update_evidence 18 % (needs a result file), python -m subprocess 1.5 %, main(argv) the rest; "
+        "non-trivial = non-empty results and at least one rewritten "
         "and one dropped-or-MBR row; distinct by sha1 of the case"
     )
     assumptions = [
@@ -211,6 +225,7 @@ class P(Prop):
             pc = names.index("posterior_error_prob" if fmt == "native" else "mokapot pep")
             results.append({"ext": ext, "value_cols": [sc, pc], "rows": [hdr] + rows})
         case = {"evidence": evidence, "results": results}
+        self._gen_naming(case, rng)
         # rare malformed inputs (at most one per case)
         r = rng.random()
         if r < 0.015 and results and len(results[0]["rows"]) > 1:
@@ -236,6 +251,86 @@ class P(Prop):
             del rf["rows"][0][rng.choice(js)]  # result header loses a required column name
         return case
 
+    # ------------------------------------------------------------------ file names, order given, entry point
+    EV_DIRS = ["", "run_C", "run_A", "run_B", "Z", "a", "run_C/sub", "10", "9"]
+    EV_BASES = ["evidence.txt", "msms.txt", "evidence_2.txt", "Evidence.txt", "evidence_10.txt", "b_evidence.txt"]
+    RES_BASES = ["andromeda.mokapot.psms", "andromeda.mokapot.decoy.psms", "pout", "pout_decoy", "Target", "a.percolator"]
+
+    @staticmethod
+    def _distinct_paths(rng, n, dirs, bases, ext_of):
+        paths = []
+        base0 = rng.choice(bases)
+        same_base = rng.random() < 0.45  # the same base name in different directories
+        guard = 0
+        while len(paths) < n:
+            guard += 1
+            b = base0 if same_base and guard < 40 else rng.choice(bases)
+            p = os.path.join(rng.choice(dirs), b + ext_of(len(paths)))
+            if p not in paths:
+                paths.append(p)
+        return paths
+
+    @staticmethod
+    def _arrange(rng, paths):
+        """assign the generated names to the positions: mostly so that the order given is NOT the sorted one"""
+        r = rng.random()
+        if r < 0.45:
+            out = sorted(paths, reverse=True)
+        elif r < 0.85:
+            out = list(paths)
+            rng.shuffle(out)
+            if len(out) > 1 and out == sorted(out):
+                out[0], out[-1] = out[-1], out[0]
+        else:
+            out = sorted(paths)
+        return out
+
+    def _gen_naming(self, case, rng):
+        ne, nr = len(case["evidence"]), len(case["results"])
+        ev = self._arrange(rng, self._distinct_paths(rng, ne, self.EV_DIRS, self.EV_BASES, lambda i: ""))
+        # a result file's extension selects its delimiter: it stays with the file
+        exts = [r["ext"] for r in case["results"]]
+        names = self._arrange(rng, self._distinct_paths(rng, nr, self.EV_DIRS, self.RES_BASES, lambda i: ""))
+        res = []
+        for i, nm in enumerate(names):
+            p = nm + exts[i]
+            while p in res or p in ev:
+                nm += "_"
+                p = nm + exts[i]
+            res.append(p)
+        case["ev_paths"], case["res_paths"] = ev, res
+        ev_args, res_args = list(range(ne)), list(range(nr))
+        if rng.random() < 0.08:  # the same evidence path given twice: merged twice (see notes, addendum 3)
+            ev_args.insert(rng.randint(0, len(ev_args)), rng.randrange(ne))
+        if nr and rng.random() < 0.06:  # the same result file given twice: its rows overwrite again
+            res_args.insert(rng.randint(0, len(res_args)), rng.randrange(nr))
+        case["ev_args"], case["res_args"] = ev_args, res_args
+        r = rng.random()
+        if r < 0.25:
+            case["entry"] = "api"
+        elif r < 0.43 and nr:
+            case["entry"] = "pipeline"  # run_update_evidence always passes --perc_results: needs >= 1 result file
+        elif 0.43 <= r < 0.445:
+            case["entry"] = "module"
+        else:
+            case["entry"] = "main"
+
+    @staticmethod
+    def _naming(case):
+        """(ev_paths, res_paths, ev_args, res_args, entry) with the defaults of the cases recorded before addendum 3"""
+        ne, nr = len(case["evidence"]), len(case["results"])
+        ev = case.get("ev_paths") or [f"evidence_in_{i}.txt" for i in range(ne)]
+        res = case.get("res_paths") or [f"pout_{i}{r['ext']}" for i, r in enumerate(case["results"])]
+        ev_args = case.get("ev_args")
+        res_args = case.get("res_args")
+        return (ev, res, list(range(ne)) if ev_args is None else ev_args,
+                list(range(nr)) if res_args is None else res_args, case.get("entry", "main"))
+
+    def given(self, case):
+        """the evidence files and result files in the order GIVEN on the command line / to the function"""
+        _, _, ev_args, res_args, _ = self._naming(case)
+        return [case["evidence"][i] for i in ev_args], [case["results"][i] for i in res_args]
+
     # ------------------------------------------------------------------ the implementation
     @staticmethod
     def _write(path, rows, delim="\t"):
@@ -244,37 +339,63 @@ class P(Prop):
             w.writerows(rows)
 
     def materialise(self, case, d):
-        ev, res = [], []
+        ev_paths, res_paths, ev_args, res_args, _ = self._naming(case)
         for i, f in enumerate(case["evidence"]):
-            p = os.path.join(d, f"evidence_in_{i}.txt")
+            p = os.path.join(d, ev_paths[i])
+            os.makedirs(os.path.dirname(p), exist_ok=True)
             self._write(p, f)
-            ev.append(p)
         for i, r in enumerate(case["results"]):
-            p = os.path.join(d, f"pout_{i}{r['ext']}")
+            p = os.path.join(d, res_paths[i])
+            os.makedirs(os.path.dirname(p), exist_ok=True)
             self._write(p, r["rows"], "," if r["ext"] == ".csv" else "\t")
-            res.append(p)
-        out = os.path.join(d, "evidence_out.txt")
+        ev = [os.path.join(d, ev_paths[i]) for i in ev_args]
+        res = [os.path.join(d, res_paths[i]) for i in res_args]
+        out = os.path.join(d, "m_evidence_out.txt")
+        return ev, res, out
+
+    @staticmethod
+    def argv(ev, res, out):
         args = ["--mq_evidence"] + ev + ["--mq_evidence_out", out]
         if res:
             args += ["--perc_results"] + res
-        return args, out
+        return args
 
     @staticmethod
-    def classify_exc(e):
-        frames = [f.name for f in traceback.extract_tb(e.__traceback__)]
-        msg = str(e)
-        if isinstance(e, IndexError):
+    def classify(tname, msg, frames):
+        if tname == "IndexError":
             return "bad_psmid" if "parse_andromeda_psmid_and_peptide" in frames else "short_row"
-        if isinstance(e, ValueError):
+        if tname == "ValueError":
             if "is missing" in msg:
                 return "missing_column"
             if "invalid literal for int" in msg:
                 return "bad_scan"
             if "Could not determine percolator input file format" in msg:
                 return "unknown_result_format"
-        if isinstance(e, (StopIteration, RuntimeError)) and ("StopIteration" in repr(e) or "generator" in msg or msg == ""):
+        if tname in ("StopIteration", "RuntimeError") and ("StopIteration" in tname + msg or "generator" in msg or msg == ""):
             return "no_header"
         return None
+
+    @classmethod
+    def classify_exc(cls, e):
+        frames = [f.name for f in traceback.extract_tb(e.__traceback__)]
+        return cls.classify(type(e).__name__, str(e), frames)
+
+    @classmethod
+    def classify_stderr(cls, text):
+        """the same classification from the traceback a `python -m ...` run prints"""
+        lines = [l for l in text.splitlines() if l.strip()]
+        if not lines or "Traceback (most recent call last)" not in text:
+            return None
+        tail = text[text.rindex("Traceback (most recent call last)"):]
+        frames = re.findall(r'^  File "[^"]*", line [0-9]+, in (\S+)', tail, re.M)
+        last = lines[-1]
+        tname, _, msg = last.partition(":")
+        return cls.classify(tname.strip().split(".")[-1], msg.strip(), frames)
+
+    @staticmethod
+    def _read_out(path):
+        with open(path, newline="") as fh:
+            return [list(r) for r in csv.reader(fh, delimiter="\t")]
 
     def run_impl(self, case):
         if "psmid" in case:
@@ -293,11 +414,28 @@ class P(Prop):
             return {"raw": raw, "scan": scan, "modseq": seq}
         from picked_group_fdr.pipeline import update_evidence_from_pout as u
 
+        entry = self._naming(case)[4]
         d = tempfile.mkdtemp(prefix="c15_")
         try:
-            args, out = self.materialise(case, d)
+            ev, res, out = self.materialise(case, d)
+            if entry == "pipeline":
+                return self._run_pipeline(ev, res, d)
             try:
-                u.main(args)
+                if entry == "api":
+                    u.update_evidence_files(ev, res, out, "auto", "andromeda", False)
+                elif entry == "module":
+                    p = subprocess.run(
+                        [lib.PY, "-m", "picked_group_fdr.pipeline.update_evidence_from_pout"] + self.argv(ev, res, out),
+                        env=lib.impl_env(), cwd=d, capture_output=True, text=True, timeout=300)
+                    if p.returncode != 0:
+                        enum = self.classify_stderr(p.stderr)
+                        if enum is None:
+                            raise RuntimeError("python -m ...update_evidence_from_pout exited %d: %s" % (p.returncode, p.stderr[-600:]))
+                        if os.path.exists(out):
+                            return {"err": enum, "published_despite_error": True}
+                        return {"err": enum}
+                else:
+                    u.main(self.argv(ev, res, out))
             except Exception as e:
                 enum = self.classify_exc(e)
                 if enum is None:
@@ -305,19 +443,42 @@ class P(Prop):
                 if os.path.exists(out):
                     return {"err": enum, "published_despite_error": True}
                 return {"err": enum}
-            with open(out, newline="") as fh:
-                rows = [list(r) for r in csv.reader(fh, delimiter="\t")]
-            return {"rows": rows}
+            return {"rows": self._read_out(out)}
         finally:
             shutil.rmtree(d, ignore_errors=True)
+
+    def _run_pipeline(self, ev, res, d):
+        """pipeline.run_update_evidence: one rescored file per evidence file, each merged with ALL result files"""
+        from picked_group_fdr.pipeline import pipeline as pl
+
+        outs = [os.path.join(d, "rescored_%d_%s" % (k, os.path.basename(p))) for k, p in enumerate(ev)]
+        err = None
+        try:
+            pl.run_update_evidence(ev, res, outs, "andromeda", False)
+        except Exception as e:
+            err = self.classify_exc(e)
+            if err is None:
+                raise
+        files = []
+        for o in outs:
+            if not os.path.exists(o):
+                break
+            files.append(self._read_out(o))
+        if err is None:
+            if len(files) != len(outs):
+                raise RuntimeError("run_update_evidence returned without writing %s" % outs[len(files)])
+            return {"files": files}
+        # the call stops at the first file that fails: exactly the files before it are published
+        return {"err": err, "files": files}
 
     # ------------------------------------------------------------------ the model
     def model_request(self, case, impl_out):
         if "psmid" in case:
             return {"op": "psmid", "psmid": case["psmid"], "peptide": case["peptide"]}
+        evidence, results = self.given(case)
         raw = []
-        for r in case["results"]:
-            rows = [list(r["rows"][0])]
+        for r in results:
+            rows = [list(x) for x in r["rows"][:1]]
             for row in r["rows"][1:]:
                 row = list(row)
                 for c in r["value_cols"]:
@@ -328,9 +489,20 @@ class P(Prop):
                             pass
                 rows.append(row)
             raw.append(rows)
-        return {"op": "merge", "evidence": case["evidence"], "results_raw": raw}
+        if self._naming(case)[4] == "pipeline":
+            return [{"op": "merge", "evidence": [f], "results_raw": raw} for f in evidence]
+        return {"op": "merge", "evidence": evidence, "results_raw": raw}
 
     def model_view(self, case, resp, impl_out):
+        if isinstance(resp, list):  # pipeline entry: one merge per evidence file, stops at the first error
+            files = []
+            for r in resp:
+                if not isinstance(r, dict) or "rows" not in r:
+                    if isinstance(r, dict) and set(r) == {"err"}:
+                        return {"err": r["err"], "files": files}
+                    return r
+                files.append(r["rows"])
+            return {"files": files}
         return resp
 
     def impl_view(self, case, impl_out):
@@ -339,10 +511,10 @@ class P(Prop):
     # ------------------------------------------------------------------ the property, stated directly
     PSMID = re.compile(r"^(?:(.*)_)?([+-]?[0-9]+)_[^_]*_[^_]*$", re.S)
 
-    def _join_table(self, case):
+    def _join_table(self, results):
         """(raw, scan, modseq) -> (score, pep) written strings; later rows win.  None if a result file is malformed."""
         table = {}
-        for r in case["results"]:
+        for r in results:
             rows = r["rows"]
             if not rows:
                 return None
@@ -370,14 +542,15 @@ class P(Prop):
                 table[(m.group(1) or "", int(m.group(2)), seq)] = (written(row[ix["score"]]), written(row[ix["pep"]]))
         return table
 
-    def _expected(self, case):
-        """expected output rows, or None when the input is malformed (then the step must not publish)"""
-        table = self._join_table(case)
+    def _expected(self, evidence, results):
+        """expected output rows for the files IN THE ORDER GIVEN, or None when the input is malformed (then the
+        step must not publish)"""
+        table = self._join_table(results)
         if table is None:
             return None
         raws_in = {k[0] for k in table}
         exp = []
-        for fi, f in enumerate(case["evidence"]):
+        for fi, f in enumerate(evidence):
             if not f:
                 return None
             names = [h.lower() for h in f[0]]
@@ -422,29 +595,62 @@ class P(Prop):
             return None if impl_out == want else "PSM id %r read as %r, expected %r" % (case["psmid"], impl_out, want)
         if impl_out.get("published_despite_error"):
             return "the step raised %s but an output file exists under the final name" % impl_out.get("err")
-        exp = self._expected(case)
+        evidence, results = self.given(case)
+        ev_paths, res_paths, ev_args, res_args, entry = self._naming(case)
+        how = "%s entry, evidence given as %s, results as %s" % (entry, [ev_paths[i] for i in ev_args], [res_paths[i] for i in res_args])
+        if entry == "pipeline":
+            # one rescored file per evidence file; the call stops at the first malformed one
+            got_files = impl_out.get("files")
+            if got_files is None:
+                return "no per-file output: %r" % (impl_out,)
+            for k, f in enumerate(evidence):
+                exp = self._expected([f], results)
+                if k >= len(got_files):
+                    if "err" not in impl_out:
+                        return "file %d of %d not written (%s)" % (k, len(evidence), how)
+                    if exp is not None:
+                        return "well-formed input rejected with %s (file %d; %s)" % (impl_out["err"], k, how)
+                    return None
+                if exp is None:
+                    return None  # malformed input the implementation tolerated: outside the property
+                why = self._diff(got_files[k], exp)
+                if why:
+                    return "file %d: %s (%s)" % (k, why, how)
+            if "err" in impl_out or len(got_files) != len(evidence):
+                return "all %d files well-formed and written, yet %r" % (len(evidence), {k: v for k, v in impl_out.items() if k != "files"})
+            return None
+        exp = self._expected(evidence, results)
         if "err" in impl_out:
             if exp is not None:
-                return "well-formed input rejected with %s" % impl_out["err"]
+                return "well-formed input rejected with %s (%s)" % (impl_out["err"], how)
             return None
         if exp is None:
             return None  # malformed input the implementation tolerated: outside the property
-        got = impl_out["rows"]
+        why = self._diff(impl_out["rows"], exp)
+        return "%s (%s)" % (why, how) if why else None
+
+    @staticmethod
+    def _diff(got, exp):
         if got != exp:
             for i in range(max(len(got), len(exp))):
                 g = got[i] if i < len(got) else None
                 e = exp[i] if i < len(exp) else None
                 if g != e:
-                    return f"output row {i}: got {g} but the join on (raw file, scan, modified sequence) gives {e}"
+                    return (f"output row {i}: got {g} but the header of the first file given / the join on (raw file, scan, "
+                            f"modified sequence) over the files in the order given gives {e}")
         return None
 
     # ------------------------------------------------------------------ bookkeeping
     def _row_stats(self, case, impl_out):
-        st = {"rewritten": 0, "unchanged": 0, "dropped": 0, "in": sum(max(0, len(f) - 1) for f in case["evidence"])}
-        if not isinstance(impl_out, dict) or "rows" not in impl_out:
+        evidence, _ = self.given(case)
+        st = {"rewritten": 0, "unchanged": 0, "dropped": 0, "in": sum(max(0, len(f) - 1) for f in evidence)}
+        if not isinstance(impl_out, dict) or "err" in impl_out or ("rows" not in impl_out and "files" not in impl_out):
             return st
-        out = impl_out["rows"][1:]
-        inp = [r for f in case["evidence"] for r in f[1:]]
+        if "files" in impl_out:
+            out = [r for f in impl_out["files"] for r in f[1:]]
+        else:
+            out = impl_out["rows"][1:]
+        inp = [r for f in evidence for r in f[1:]]
         st["dropped"] = len(inp) - len(out)
         j = 0
         for r in inp:
@@ -468,6 +674,23 @@ class P(Prop):
         if "psmid" in case:
             return ["kind=psmid", "psmid_" + ("err=" + impl_out["err"] if isinstance(impl_out, dict) and "err" in impl_out else "ok")]
         f = ["kind=merge", "evidence_files=%d" % len(case["evidence"]), "result_files=%d" % len(case["results"])]
+        ev_paths, res_paths, ev_args, res_args, entry = self._naming(case)
+        f.append("entry=" + entry)
+        given_ev = [ev_paths[i] for i in ev_args]
+        given_res = [res_paths[i] for i in res_args]
+        if len(set(given_ev)) > 1:
+            f.append("evidence_given_in_sorted_path_order" if given_ev == sorted(given_ev) else "evidence_given_NOT_in_sorted_path_order")
+            if given_ev != sorted(given_ev) and case["evidence"][ev_args[0]] and case["evidence"][ev_args[0]][:1] != \
+                    case["evidence"][ev_paths.index(min(given_ev))][:1]:
+                f.append("first_given_header_differs_from_alphabetically_first")
+        if len(set(given_res)) > 1:
+            f.append("results_given_in_sorted_path_order" if given_res == sorted(given_res) else "results_given_NOT_in_sorted_path_order")
+        if len(set(given_ev)) < len(given_ev):
+            f.append("evidence_file_given_twice")
+        if len(set(given_res)) < len(given_res):
+            f.append("result_file_given_twice")
+        if len({os.path.basename(x) for x in given_ev}) < len(set(given_ev)):
+            f.append("same_base_name_in_different_directories")
         if isinstance(impl_out, dict) and "err" in impl_out:
             f.append("err=" + impl_out["err"])
             return f
@@ -514,14 +737,35 @@ class P(Prop):
                     yield {"psmid": "_".join(parts[:i] + parts[i + 1 :]), "peptide": case["peptide"]}
             return
         ev, res = case["evidence"], case["results"]
+
+        def drop(c, what, i):
+            """remove file i together with its name and its places in the order given"""
+            del c[what][i]
+            pk, ak = ("ev_paths", "ev_args") if what == "evidence" else ("res_paths", "res_args")
+            if c.get(pk):
+                del c[pk][i]
+            if c.get(ak) is not None:
+                c[ak] = [a - (1 if a > i else 0) for a in c[ak] if a != i]
+            return c
+
         for i in range(len(ev)):
             if len(ev) > 1:
-                c = copy.deepcopy(case)
-                del c["evidence"][i]
-                yield c
+                yield drop(copy.deepcopy(case), "evidence", i)
         for i in range(len(res)):
+            if len(res) > 1 or self._naming(case)[4] != "pipeline":
+                yield drop(copy.deepcopy(case), "results", i)
+        # a path given twice -> once
+        for k in ("ev_args", "res_args"):
+            a = case.get(k) or []
+            for j in range(len(a)):
+                if a.count(a[j]) > 1:
+                    c = copy.deepcopy(case)
+                    del c[k][j]
+                    yield c
+        # the slow entry point -> the same through main(argv)
+        if case.get("entry") == "module":
             c = copy.deepcopy(case)
-            del c["results"][i]
+            c["entry"] = "main"
             yield c
         for i, f in enumerate(ev):
             for j in range(1, len(f)):
